@@ -32,4 +32,9 @@ def run(tier, seed):
     run_contracts(pack, items)
     from contracts import C01_assembly
     run_contracts(pack, [(C01_assembly.fg_to_dae('C09'),)])
+    # the order in which one residual round consults the discrete components, and that each component is consulted once
+    from contracts import fn_sequence as Q
+    run_contracts(pack, [(Q.pflow_fg_update('C09'),), (Q.tds_fg_update('C09'),), (Q.call_models('C09'),), (Q.model_l_update_var('C09'),),
+                         (Q.model_l_check_eq('C09', True),), (Q.model_l_check_eq('C09', False),)] +
+                  [(Q.delegation('C09', n, m),) for n, m in (('l_update_var', 'l_update_var'), ('l_update_eq', 'l_check_eq'))])
     return pack.finish()
